@@ -483,6 +483,21 @@
 #endif
 
 /**
+ * Response text used when the request has more than one "Transfer-Encoding:"
+ * or more than one "Content-Length:" header
+ */
+#ifdef HAVE_MESSAGES
+#define REQUEST_AMBIGUOUS_FRAMING \
+  "<html>" \
+  "<head><title>Malformed request</title></head>" \
+  "<body>The request has several Transfer-Encoding or several " \
+  "Content-Length headers.</body>" \
+  "</html>"
+#else
+#define REQUEST_AMBIGUOUS_FRAMING ""
+#endif
+
+/**
  * Response text used when the request (http header) is
  * malformed.
  *
@@ -4710,6 +4725,40 @@ check_write_done (struct MHD_Connection *connection,
 
 
 /**
+ * Check whether the request has more than one header with the given name.
+ *
+ * @param connection the connection to check
+ * @param name the name of the header
+ * @param name_len the length of the @a name
+ * @return true if more than one such header is present in the request
+ */
+static bool
+has_duplicated_header (struct MHD_Connection *connection,
+                       const char *name,
+                       size_t name_len)
+{
+  const struct MHD_HTTP_Req_Header *pos;
+  bool found;
+
+  found = false;
+  for (pos = connection->rq.headers_received; NULL != pos; pos = pos->next)
+  {
+    if ( (0 != (MHD_HEADER_KIND & pos->kind)) &&
+         (name_len == pos->header_size) &&
+         (MHD_str_equal_caseless_bin_n_ (name,
+                                         pos->header,
+                                         name_len)) )
+    {
+      if (found)
+        return true;
+      found = true;
+    }
+  }
+  return false;
+}
+
+
+/**
  * Parse the various headers; figure out the size
  * of the upload and make sure the headers follow
  * the protocol.  Advance to the appropriate state.
@@ -4748,6 +4797,26 @@ parse_connection_headers (struct MHD_Connection *connection)
     transmit_error_response_static (connection,
                                     MHD_HTTP_BAD_REQUEST,
                                     REQUEST_LACKS_HOST);
+    return;
+  }
+
+  /* Only the first "Transfer-Encoding:" and the first "Content-Length:"
+     headers are used below. If the request has several of them, the message
+     framing is ambiguous (request smuggling), the request must be rejected
+     and the connection must be closed.
+     See RFC9112, Section 6.3 and RFC9110, Section 8.6. */
+  if (has_duplicated_header (connection,
+                             MHD_HTTP_HEADER_TRANSFER_ENCODING,
+                             MHD_STATICSTR_LEN_ (
+                               MHD_HTTP_HEADER_TRANSFER_ENCODING)) ||
+      has_duplicated_header (connection,
+                             MHD_HTTP_HEADER_CONTENT_LENGTH,
+                             MHD_STATICSTR_LEN_ (
+                               MHD_HTTP_HEADER_CONTENT_LENGTH)))
+  {
+    transmit_error_response_static (connection,
+                                    MHD_HTTP_BAD_REQUEST,
+                                    REQUEST_AMBIGUOUS_FRAMING);
     return;
   }
 
